@@ -6,6 +6,7 @@ import (
 	"go/constant"
 	"go/types"
 	"math/big"
+	"regexp"
 	"strings"
 
 	"golang.org/x/tools/go/ssa"
@@ -108,6 +109,8 @@ func (ev *cenv) lookupIdent(name string) *Val {
 	return nil
 }
 
+var loopNameRe = regexp.MustCompile(`^(it|ri)[0-9]+$`)
+
 // fnHasLocal reports whether the source of fn declares a local variable called name.
 func fnHasLocal(fn *ssa.Function, name string) bool {
 	for _, b := range fn.Blocks {
@@ -158,6 +161,10 @@ func (ev *cenv) eval(e *CExpr) *Val {
 			ev.fail("result not available here")
 		}
 		v := ev.lookupIdent(e.Name)
+		if v == nil && loopNameRe.MatchString(e.Name) {
+			// range index / count of a loop that was not entered on this path
+			return missingVal()
+		}
 		if v == nil && ev.fc != nil && ev.fc.fn != nil && fnHasLocal(ev.fc.fn, e.Name) {
 			// a local of this function that is not defined on this path (yet)
 			return missingVal()
